@@ -1763,6 +1763,53 @@ def rule_narrowing(chk):
     chk.floor('keys of 64-bit-keyed containers', n, 1)
 
 
+def rule_refresh_unconditional(chk):
+    """update() rebuilds the search structure of *every* array: in the _refresh of a class, the loop over the arrays skips an array (continue / break, or the build call under a
+    test) only when that array is empty.  A structure kept because the array "looks unchanged" (same count, sums, bounds) is stale after the particles were permuted - the
+    spatial re-ordering does exactly that - and hands out indices of other particles.  Shared with C17."""
+    n = 0
+    for p_ in sorted(glob.glob(os.path.join(REPO, 'pysph/base/*_nnps.pyx'))):
+        if 'gpu' in p_:
+            continue
+        rel = os.path.relpath(p_, REPO)
+        for cls in M.classes(M.cy(rel)):
+            fn = M.methods(cls).get('_refresh')
+            if fn is None:
+                continue
+            M.set_parents(fn)
+            defs = N.local_defs(fn.body)
+            for loop in [l for l in ast.walk(fn) if isinstance(l, ast.For) and compact(l.iter) in ('range(self.narrays)', 'range(narrays)')]:
+                calls_in = [c for c in M.calls(loop) if isinstance(c.func, ast.Attribute) and c.func.attr in ('c_build_tree', 'fill_array', '_bin', 'build_tree')]
+                if not calls_in:
+                    continue
+                n += 1
+                bad = []
+                for x in ast.walk(loop):
+                    cond = None
+                    if isinstance(x, (ast.Continue, ast.Break)) and M.enclosing(x, (ast.For, ast.While)) is loop:
+                        gi = M.enclosing(x, (ast.If,))
+                        cond = gi.test if gi is not None and any(gi is y for y in ast.walk(loop)) else None
+                        if cond is None:
+                            bad.append('unconditional %s' % type(x).__name__.lower())
+                            continue
+                    elif x in calls_in:
+                        gi = M.enclosing(x, (ast.If,))
+                        cond = gi.test if gi is not None and any(gi is y for y in ast.walk(loop)) else None
+                        if cond is None:
+                            continue
+                    else:
+                        continue
+                    t_ = compact(N.inline(cond, defs))
+                    empt = _zero_side(cond, defs) is not None or 'NULL' in t_
+                    if not empt:
+                        bad.append('under `%s`' % compact(cond))
+                chk.decide(not bad, 'results-not-stale', '%s._refresh:every-array-rebuilt@%d' % (cls.name, loop.lineno), node=loop, file=rel, func='%s._refresh' % cls.name,
+                           detail_bad='the loop over the arrays does not rebuild every array (%s): a structure that is kept across an update describes the particles as they were - after '
+                                      'a permutation of the array (spatial re-ordering) or any change the test does not see, queries and ordered-index lists are wrong' % '; '.join(bad[:2]),
+                           detail_ok='every array, on every path')
+    chk.floor('per-array rebuild loops', n, 3)
+
+
 def rule_query_array_index(chk):
     """helpers that encode / decode per-array layouts (the key of a cell, the particle id inside a key: the bit widths differ from array to array) take the index of the array
     they are to work for; in a query everything that is looked up belongs to the *source* array, so inside find_nearest_neighbors that argument is the source index (through
@@ -2178,6 +2225,7 @@ def main(chk):
     rule_level_cell_size(chk)
     rule_narrowing(chk)
     rule_query_array_index(chk)
+    rule_refresh_unconditional(chk)
     rule_cxx_headers(chk)
     # only valid indices, no duplicates: a sort of the result must touch exactly the slice this query appended (rule shared with C05)
     import importlib.util
